@@ -1,3 +1,2 @@
 import PsVerif.Generated.Recon
-#print axioms PsVerif.Gen.recon_predict
-#print axioms PsVerif.Gen.recon_predict_is_model
+
